@@ -18,4 +18,15 @@ PROPS = {
         "trusted_base": ["oracle: Rust std f64 <-> decimal text (the harness passes parse::<f64>/to_string results to the model as a table)"],
         "assumptions": ["RespParser is driven as the server drives it: feed, then parse until None or Err"],
     },
+    "C09": {
+        "n": {"quick": 110, "thorough": 400},
+        "judge": True,
+        "shrink": False,
+        "run_timeout": 2400,
+        "trivial_outs": {"i1", "i0", ""},
+        "rule": "one case = build operations through the storage API (all six types, sizes around 63/64/16383/16384 and 65536, binary keys and values incl. the stream marker, several databases, TTLs shorter and longer than the downtime), then DUMP, implementation SAVE (its bytes are loaded by the model and re-saved by the model: must reproduce the file byte for byte), restart of the implementation on that file, DUMP, model SAVE with a simulated downtime, restart of the implementation on the model's file, DUMP; one evaluation = one operation compared between the implementation and the extracted Gallina model; non-trivial = an operation whose output is not a bare status",
+        "explanation": "theorems: length and string encoding round-trips (all 0 <= n < 2^32), whole-dataset round-trip load (save d) = age d under a boolean guard, refutation lemmas for what the guard excludes; tie: both directions in-process (implementation save -> model load -> model re-save = same bytes; model save -> implementation load), plus the property oracle on the implementation's own dumps before and after save+restart",
+        "trusted_base": ["the harness reads the clocks (Instant, SystemTime) around each operation and passes them to the model; TTLs are compared within the measured elapsed time"],
+        "assumptions": ["RdbEngine::save / load are driven as the server drives them (SAVE command, start-up load) on a quiescent engine"],
+    },
 }
